@@ -118,6 +118,18 @@ def run(case):
             if own != want or frs != want or len(own) != len(d.get('fragid') or []):
                 viol.append(V('c10.membership', f'{txt}: fine atom {n} (generator atom {o}) belongs to coarse nodes {d.get("fragid")} = fragments {sorted(own)} / mapped from fragments {sorted(frs)}, expected {sorted(want)}'))
                 break
+        # 'one atom that belongs to BOTH coarse nodes', seen from the coarse side as well: every coarse node named in an
+        # atom's membership lists that atom among its fine nodes (also a node ALL of whose atoms survive in earlier nodes)
+        if not viol:
+            cg = res['cg']
+            for n, d in aa.nodes(data=True):
+                for k in d.get('fragid') or []:
+                    gr = cg.nodes[k].get('graph') if k in cg else None
+                    if gr is None or n not in gr:
+                        viol.append(V('c10.coarse_node_lacks_its_atom', f'{txt}: fine atom {n} records coarse node {k} ({cg.nodes[k].get("fragname") if k in cg else "?"}), whose fine nodes are {sorted(gr.nodes) if gr is not None else None}'))
+                        break
+                if viol:
+                    break
     dis = MC.resolve_case(dict(case['disjoint']), **kw)
     dtxt = MC.case_text(case['disjoint'])
     if dis['error']:
